@@ -562,6 +562,19 @@ def check_sym(project: Project, rep):
                     other_writes[a_.id].append(n)
             if isinstance(n.func, ast.Attribute) and isinstance(n.func.value, ast.Name) and n.func.value.id in mats:
                 other_writes[n.func.value.id].append(n)
+    # every other store into a bounds matrix that the readers above did not look at (several targets in one statement,
+    # stores inside loops that are not the pair loops, augmented stores): it may be the symmetrisation, in a form not read here
+    seen_w = {id(x) for ws in other_writes.values() for x in ws}
+    for n in ast.walk(f):
+        if id(n) in loop_nodes or id(n) in seen_w:
+            continue
+        tgs = n.targets if isinstance(n, ast.Assign) else [n.target] if isinstance(n, (ast.AugAssign, ast.AnnAssign)) else []
+        if isinstance(n, ast.Assign) and len(tgs) == 1 and isinstance(tgs[0], ast.Subscript):
+            continue   # read above
+        for tg in tgs:
+            for x in ast.walk(tg):
+                if isinstance(x, ast.Subscript) and isinstance(x.value, ast.Name) and x.value.id in mats and isinstance(x.ctx, ast.Store):
+                    other_writes[x.value.id].append(n)
     for mname in mats:
         if mname in copied:
             rep.discharged("GH-SYM", fi, f, f"lower triangle of `{mname}` is filled from its own transpose")
